@@ -62,6 +62,7 @@ impl Cfg {
 }
 
 fn gen_mods(rng: &mut Rng, with_lazer: bool) -> ModSpec {
+    // the property quantifies over HR/EZ/DT/HT plus lazer DifficultyAdjust: nothing else is generated
     let bits = *rng.pick(&[0u32, HR, EZ, DT, HT, HR | DT, EZ | HT, HR | HT, EZ | DT]);
     if with_lazer && rng.chance(0.35) {
         let mut extra = LazerExtra::default();
